@@ -71,7 +71,11 @@ func (g *genState) freshIdent(t *rapid.T, allowGroup bool) (Ident, int, bool) {
 			impl = ty
 		}
 		id := Ident{T: ty}
-		if allowGroup && g.o.Groups && rapid.IntRange(0, 3).Draw(t, "grp") == 0 {
+		grpOdds := 3
+		if IsIface(ty) {
+			grpOdds = 1 // interface-typed services are grouped more often (alias groups of different sizes)
+		}
+		if allowGroup && g.o.Groups && rapid.IntRange(0, grpOdds).Draw(t, "grp") == 0 {
 			id.Group = rapid.SampledFrom(groupPool).Draw(t, "group")
 			if g.closedGrp[groupKey{ty, id.Group}] {
 				continue
@@ -235,7 +239,7 @@ func GenConfig(t *rapid.T, o GenOpts) *Config {
 				}
 				ifs := rapid.Permutation([]int{TI0, TI1, TI2, TI3}).Draw(t, "aliases")[:na]
 				var key, group string
-				if o.Groups && rapid.IntRange(0, 3).Draw(t, "asgrp") == 0 {
+				if o.Groups && rapid.IntRange(0, 1).Draw(t, "asgrp") == 0 {
 					group = rapid.SampledFrom(groupPool).Draw(t, "asgroup")
 				} else if o.Keys {
 					key = rapid.SampledFrom(keyPool).Draw(t, "askey")
